@@ -14,6 +14,9 @@ are decided exactly (AVN):
                EKF: q = q_t + K (z - h(q_t)), K = P_t H^T S^-1, S = H P_t H^T + R (value numbers) and
                dhdq('normal') == d(E_hom(q)^T ref)/dq for the homogeneous representative of the extracted matrix.
 A flipped sign in any of these makes the truth a repeller or moves the equilibrium; that is what the rules detect.
+Added after the seeding rounds (DESIGN.md 6.6-6.8):
+ AQUA  equilibrium at dt = 0 (both conventions), SHORT-ARC (interval: delta quaternions have non-negative scalar part), GAIN-INPUT (adaptive gain receives the raw sample);
+ FEEDBACK.guard / FEEDBACK.step  the gradient step is decided by interpretation with opaque norms and is guarded by norm(f) != 0.
 """
 import ast
 LINT_EXTRA_FILES = ("ahrs/common/orientation.py",)      # acc2q / am2q / ecompass helpers the filters start from
